@@ -136,10 +136,15 @@ where
     // use it for a few operations: it is an unguarded alias of the same arena
     if ctx.view.typed.cur.is_some() && ctx.rng.bool() {
         let q = ctx.rng.range(1, 6);
-        if let Ok(mut bv) = scope.try_by_value() {
-            level(&mut bv, ctx, depth, q);
-        }
-        ctx.begin("by_value: dropped".into());
+        // allocations made through the by-value scope only live as long as the borrow it came from
+        // (it has its own copy of the current-chunk pointer, so the view must be re-read afterwards)
+        let unwound = region(ctx, |ctx| {
+            if let Ok(mut bv) = scope.try_by_value() {
+                level(&mut bv, ctx, depth + 1, q);
+            }
+        });
+        ctx.sh.kill_deeper_than(depth);
+        ctx.begin(format!("by_value: dropped{}", if unwound { " (unwinding)" } else { "" }));
         after(ctx, scope, Expect { may_decrease: true, ..Default::default() });
     }
 }
